@@ -27,9 +27,9 @@ Proof.
 Qed.
 
 (* ---- ASCII, ATASCII, PETSCII: one character ------------------------------------------------------------------------------------ *)
-Lemma ascii_step_np : forall m ch, W (mt m) -> NPM False (ascii_step m ch).
+Lemma ascii_step_np : forall m ch, W (mt m) -> NPM (ascii_step m ch).
 Proof. intros m ch HW. unfold ascii_step, print_value. mwifs; first [ exact HW | mwok HW | mwlift HW ]. Qed.
-Lemma atascii_step_np : forall m ch, W (mt m) -> NPM False (atascii_step m ch).
+Lemma atascii_step_np : forall m ch, W (mt m) -> NPM (atascii_step m ch).
 Proof.
   intros m ch HW. unfold atascii_step, print_value.
   mwifs; first [ exact HW | mwok HW | mwlift HW | idtac ].
@@ -46,7 +46,7 @@ Proof.
   intros b ch tch H. apply pet_tch_range in H. unfold pet_reverse. destruct b; [|eexists; reflexivity].
   destruct (Z.gtb_spec (tch + 128) 255); [lia|eexists; reflexivity].
 Qed.
-Lemma petscii_step_np : forall m ch, W (mt m) -> NPM False (petscii_step m ch).
+Lemma petscii_step_np : forall m ch, W (mt m) -> NPM (petscii_step m ch).
 Proof.
   intros m c HW. unfold petscii_step. set (ch := c mod 256). clearbody ch. destruct (ea m =? 1).
   - unfold pet_escape. change (mt (with_e m 0 (eb m) (ec m) (ed m))) with (mt m).
@@ -61,17 +61,17 @@ Qed.
 Lemma run_petscii_np : forall cs m, W (mt m) -> exists m', run_petscii m cs = RunOk m' /\ W (mt m').
 Proof.
   unfold run_petscii. induction cs as [|c r IH]; intros m HW; cbn; [exists m; auto|].
-  pose proof (petscii_step_np m c HW) as G. destruct (petscii_step m c) as [m1|m1|s|]; try contradiction; apply IH; exact G.
+  pose proof (petscii_step_np m c HW) as G. destruct (petscii_step m c) as [m1|m1|s]; try contradiction; apply IH; exact G.
 Qed.
 Lemma run_ascii_np : forall cs m, W (mt m) -> exists m', run EAscii m cs = RunOk m' /\ W (mt m').
 Proof.
   induction cs as [|c r IH]; intros m HW; cbn [run step]; [exists m; auto|].
-  pose proof (ascii_step_np m c HW) as G. destruct (ascii_step m c) as [m1|m1|s|]; try contradiction; apply IH; exact G.
+  pose proof (ascii_step_np m c HW) as G. destruct (ascii_step m c) as [m1|m1|s]; try contradiction; apply IH; exact G.
 Qed.
 Lemma run_atascii_np : forall cs m, W (mt m) -> exists m', run EAtascii m cs = RunOk m' /\ W (mt m').
 Proof.
   induction cs as [|c r IH]; intros m HW; cbn [run step]; [exists m; auto|].
-  pose proof (atascii_step_np m c HW) as G. destruct (atascii_step m c) as [m1|m1|s|]; try contradiction; apply IH; exact G.
+  pose proof (atascii_step_np m c HW) as G. destruct (atascii_step m c) as [m1|m1|s]; try contradiction; apply IH; exact G.
 Qed.
 
 (* ---- the sixel epilogue ---------------------------------------------------------------------------------------------------------------- *)
@@ -165,11 +165,6 @@ Proof.
 Qed.
 
 (* ---- the loaders ------------------------------------------------------------------------------------------------------------------------ *)
-(* the macro-nesting overflow: the stream stops at a character that was processed while a macro was stored *)
-Definition MacroOverflow (e : emu) (m0 : mach) (cs : list Z) : Prop :=
-  wrapper e = true /\ run e m0 cs = RunDiverge /\
-  exists pre c post m', cs = pre ++ c :: post /\ run e m0 pre = RunOk m' /\ Stored m'.
-
 Definition ansi_like_init (music : Z) (bs : bool) (s : option fsauce) : mach :=
   file_mach (file_term 80 25 s [] 7 0 (sauce_ice s)) (file_pst music bs s).
 
@@ -178,23 +173,19 @@ Lemma load_ansi_like_total : forall e music bs s fw fh done serr cs,
   match load_ansi_like e music bs s fw fh done serr cs with
   | TOk _ _ | TErr => True
   | TPanic _ => False
-  | TOverflow => MacroOverflow e (ansi_like_init music bs s) cs
   end.
 Proof.
   intros e music bs s fw fh done serr cs NV NM Hs Hx. unfold load_ansi_like. fold (ansi_like_init music bs s).
   assert (HW : W (mt (ansi_like_init music bs s))) by (apply file_term_W; [lia|exact Hs]).
-  assert (EP : forall t, match epilogue fw fh done serr t with TOk _ _ | TErr => True | TPanic _ => False | TOverflow => False end).
+  assert (EP : forall t, match epilogue fw fh done serr t with TOk _ _ | TErr => True | TPanic _ => False end).
   { intro t. unfold epilogue. destruct (sixel_epilogue_e_ok fw fh done serr Hx) as [l El]. rewrite El. destruct l; exact I. }
-  assert (K : (exists m', run e (ansi_like_init music bs s) cs = RunOk m') \/ MacroOverflow e (ansi_like_init music bs s) cs).
+  assert (K : exists m', run e (ansi_like_init music bs s) cs = RunOk m').
   { destruct e; try contradiction.
     1-5: (match goal with |- context [run ?e0 _ _] =>
-            destruct (run_np e0 cs (ansi_like_init music bs s) eq_refl HW) as [(m' & E & _)|(E & R)] end;
-          [left; exists m'; exact E|right; split; [reflexivity|split; [exact E|exact R]]]).
-    - destruct (run_ascii_np cs _ HW) as (m' & E & _). left; exists m'; exact E.
-    - destruct (run_atascii_np cs _ HW) as (m' & E & _). left; exists m'; exact E. }
-  destruct K as [(m' & E)|M].
-  - rewrite E. specialize (EP (mt m')). destruct (epilogue fw fh done serr (mt m')); first [exact I|contradiction].
-  - pose proof M as (_ & E & _). rewrite E. exact M.
+            destruct (run_np e0 cs (ansi_like_init music bs s) eq_refl HW) as (m' & E & _) end; exists m'; exact E).
+    - destruct (run_ascii_np cs _ HW) as (m' & E & _). exists m'; exact E.
+    - destruct (run_atascii_np cs _ HW) as (m' & E & _). exists m'; exact E. }
+  destruct K as (m' & E). rewrite E. apply EP.
 Qed.
 Lemma load_seq_total : forall s cs, fsauce_nonneg s -> exists t, load_seq s cs = TOk t [].
 Proof.
@@ -210,38 +201,37 @@ Proof.
 Qed.
 
 (* all eight text loaders, every SAUCE record with a non-negative width (every record SauceData::extract returns), every
-   character list: a buffer; or the macro-nesting overflow of one of the five ANSI-based parsers; never a panic *)
-Definition text_overflow (f : tfmt) (s : option fsauce) (cs : list Z) : Prop :=
-  match emu_of f with Some e => MacroOverflow e (ansi_like_init 0 false s) cs | None => False end.
+   character list: a buffer or an error value; never a panic.  (Before the macro nesting limit, fix 2513579, the five loaders with an
+   ANSI parser inside had a third outcome, the macro-nesting overflow.) *)
 Lemma text_load_total_proof : forall f s fw fh done serr cs, fsauce_nonneg s -> SixelOk fw fh done ->
   match text_load f s fw fh done serr cs with
   | TOk _ _ | TErr => True
   | TPanic _ => False
-  | TOverflow => text_overflow f s cs
   end.
 Proof.
-  intros f s fw fh done serr cs Hs Hx. unfold text_overflow.
+  intros f s fw fh done serr cs Hs Hx.
   destruct f; cbn [text_load emu_of];
     try (apply load_ansi_like_total; [discriminate|discriminate|exact Hs|exact Hx]).
   - destruct (load_seq_total s cs Hs) as [t E]. rewrite E. exact I.
   - destruct (load_ata_total s cs Hs) as [t E]. rewrite E. exact I.
 Qed.
-(* no macro is ever stored when the text contains no `\` (0x5C, the final byte of ESC \ that completes a DCS string) ... stated
-   on the outcome only: ASCII, PETSCII and ATASCII files never overflow *)
-Lemma text_load_standalone_total : forall f s fw fh done serr cs, (f = TAsc \/ f = TSeq \/ f = TAta) -> fsauce_nonneg s -> SixelOk fw fh done ->
+(* the same, positively, for every format *)
+Lemma text_load_returns : forall f s fw fh done serr cs, fsauce_nonneg s -> SixelOk fw fh done ->
   (exists t l, text_load f s fw fh done serr cs = TOk t l) \/ text_load f s fw fh done serr cs = TErr.
 Proof.
-  intros f s fw fh done serr cs Hf Hs Hx. pose proof (text_load_total_proof f s fw fh done serr cs Hs Hx) as G.
-  destruct (text_load f s fw fh done serr cs) as [t l| | |] eqn:E; [left; eauto|right; reflexivity|contradiction|].
-  unfold text_overflow in G. destruct Hf as [->|[->| ->]]; cbn in G; try contradiction.
-  destruct G as (Hwr & _). discriminate.
+  intros f s fw fh done serr cs Hs Hx. pose proof (text_load_total_proof f s fw fh done serr cs Hs Hx) as G.
+  destruct (text_load f s fw fh done serr cs) as [t l| |site] eqn:E; [left; eauto|right; reflexivity|contradiction].
 Qed.
+Lemma text_load_standalone_total : forall f s fw fh done serr cs, (f = TAsc \/ f = TSeq \/ f = TAta) -> fsauce_nonneg s -> SixelOk fw fh done ->
+  (exists t l, text_load f s fw fh done serr cs = TOk t l) \/ text_load f s fw fh done serr cs = TErr.
+Proof. intros f s fw fh done serr cs _. apply text_load_returns. Qed.
 
-(* ---- the two classes that stay outside are inhabited --------------------------------------------------------------------------------------- *)
-(* (1) C01-stackoverflow:invoke_macro_by_id through a file: `ESC P 1;0;1 ! z 1B5B312A7A ESC \` stores macro 1 = `ESC [ 1 * z`, `ESC [ 1 * z` runs it *)
+(* ---- the repaired class and the one that stays outside ------------------------------------------------------------------------------------- *)
+(* (1) the former C02-stackoverflow:invoke_macro_by_id: `ESC P 1;0;1 ! z 1B5B312A7A ESC \` stores macro 1 = `ESC [ 1 * z`, `ESC [ 1 * z` runs it:
+   the file loads (the invocation is one error value inside the parser, parse_with_parser logs it) *)
 Definition macro_bomb : list Z :=
   [27; 80; 49; 59; 48; 59; 49; 33; 122; 49; 66; 53; 66; 51; 49; 50; 65; 55; 65; 27; 92; 27; 91; 49; 42; 122].
-Lemma macro_overflow_witness : text_load TAns None 8 16 [] false macro_bomb = TOverflow.
+Lemma macro_bomb_loads : match text_load TAns None 8 16 [] false macro_bomb with TOk t [] => (bh t, cx t, cy t) = (0, 0, 0) | _ => False end.
 Proof. vm_compute. reflexivity. Qed.
 (* (2) a sixel next to a font 0 of width 0 / of width 2^30 (cursor in column 2) / of size -1 x -1 (PSF2 header fields are u32) *)
 Lemma sixel_div_zero_witness : sixel_epilogue 0 16 [mkSx 0 0 4 6] = RPanic SITE_SIXEL_DIV.
